@@ -1488,7 +1488,16 @@ class Engine:
         if isinstance(a, Tup) and isinstance(b, Tup):
             if len(a.items) != len(b.items):
                 return False
-            return f_and([self._eq(x, y, s) for x, y in zip(a.items, b.items)])
+            parts = []
+            for x, y in zip(a.items, b.items):
+                # element == None inside a tuple comparison: the same fact as `element is None`
+                if isinstance(y, Con) and y.value is None and isinstance(x, Unk):
+                    parts.append(("atom", ("isnone", x.term)))
+                elif isinstance(x, Con) and x.value is None and isinstance(y, Unk):
+                    parts.append(("atom", ("isnone", y.term)))
+                else:
+                    parts.append(self._eq(x, y, s))
+            return f_and(parts)
         if isinstance(a, Num) and isinstance(b, Num):
             d = a.lin - b.lin
             if d.is_const():
@@ -2140,6 +2149,8 @@ class Engine:
         if short not in self.NONRAISING_EXT and short != "next":
             self._mark_opaque(fr)
         if short in ("min", "max") and len(args) >= 2 and not starred_unknown:
+            if all(vkey(a) == vkey(args[0]) for a in args[1:]) and not kwargs:
+                return [(s, args[0])]         # min/max of equal values
             nums = [self.num(a, s) for a in args]
             if all(n is not None for n in nums):
                 out = []
